@@ -33,6 +33,8 @@ def run(c):
         "how the checks' verdicts reach applyResults (checkRunner.runAndMergeResults via checkStates / checkRcpt / checkBody) is modelled by CheckRes / mergedResults / mergedQuarantine / pipelineChecks: "
         "one result-reporting check per block (results of several checks of ONE block are merged in goroutine completion order - not explored), a check answering Reject ends the command with its own reply "
         "before applyResults and is outside the model; FailAction.Apply is run for real by the harness but not modelled",
+        "routing blocks between the DMARC-evaluating pipeline and the storage target (nested msgpipelines sharing the message's MsgMetadata, `deliver_to &local_routing`) are modelled by "
+        "applyResultsRouting / routed: per block only whether its own checks flag the message; the blocks have no DMARC of their own, no modifiers and one target; what their checks report besides the flag is not modelled",
         "asynchronous policy lookup: the model of the hand-off (Model/Dmarc.lean: timedLookup, pipelineBody) takes the stage at which each DNS answer arrives and "
         "the stage after which the lookup's context is cancelled; for the code (context of Body, cancelled by close() only) C07_answer_timing_irrelevant proves the "
         "decision independent of the schedule; the harness resolver honours its context like net.Resolver (a lookup cancelled before its answer arrived ends with a "
@@ -51,6 +53,8 @@ def run(c):
         "x (how each result-reporting check hands its verdicts to the pipeline: at the CheckConnection / CheckSender / CheckRcpt / CheckBody stage, bare or - built with the real FailAction.Apply - "
         "with a Reason and neither Reject nor Quarantine (action ignore; check.spf leaving the decision to DMARC), with Reason and Quarantine (own action quarantine), with header fields of its own, "
         "the same check referenced by the later blocks again; `W` group) "
+        "x (0-3 routing blocks - nested pipelines sharing the message's metadata, the stock `deliver_to &local_routing` shape - between the evaluating pipeline and the storage target that observes the flag: "
+        "without checks, with checks that have nothing to say at the global / recipient level, with a check that flags the message itself; `N` group) "
         "x (0-2 results of other methods saying pass for the author domain: iprev, domainkeys, sender-id, auth, upstream dmarc, generic dkim/spf/arc/dkim-atps; free-text reasons on every result); quick: random sample through the real "
         "Verifier and through the real pipeline; plus a strided sweep (offset by the seed) of the property's product (2.4e6 points: 6 author domains x 8 lookup outcomes x p x sp x adkim x aspf x 7 SPF values x 5-8 SPF identities x 1-2 DKIM results over value x identifier), quick 1/80, thorough 1/4; every pair of names through the real isAligned; "
         "distinct = distinct op lines",
